@@ -11,6 +11,8 @@ import (
 
 	"verif/internal/gen/puppet"
 	"verif/internal/h"
+
+	"github.com/relab/gorums"
 )
 
 // probeAll sends a probe RPC with a fresh context to every node (up to 3
@@ -101,6 +103,7 @@ func RunUsable(e *Env) {
 			usablePhase{Kind: "directed", Directed: "stream-outruns-finished-correctable", N: 1 + rep%3, StreamK: 200 + 400*(rep%4), Calls: 1},
 			usablePhase{Kind: "directed", Directed: "cancel-while-write-blocked", N: 1 + rep%2, Calls: 8},
 			usablePhase{Kind: "directed", Directed: "cancel-right-after-return", N: 1 + rep%3, Calls: 300},
+			usablePhase{Kind: "directed", Directed: "stream-outruns-while-peer-sender-is-jammed", N: 2 + rep%2, StreamK: 100 + 100*(rep%3), Calls: 1},
 		)
 	}
 	for i := 0; i < nphase; i++ {
@@ -134,7 +137,8 @@ func RunUsable(e *Env) {
 
 func runUsablePhase(e *Env, idx int, ph usablePhase) string {
 	R := e.R
-	cl, err := h.NewCluster(h.Options{N: ph.N, Block: true, DialTimeout: 2 * time.Second, SendBuffer: ph.Buffer})
+	jam := ph.Directed == "stream-outruns-while-peer-sender-is-jammed"
+	cl, err := h.NewCluster(h.Options{N: ph.N, Block: true, DialTimeout: 2 * time.Second, SendBuffer: ph.Buffer, Proxies: jam})
 	if err != nil {
 		R.Inconc("cluster: " + err.Error())
 		return ""
@@ -262,6 +266,44 @@ func runUsablePhase(e *Env, idx int, ph usablePhase) string {
 			tasks = append(tasks, issue("CorrStream", 0, 1, false, -1, false, 0))
 		}
 		R.Count("directed.stream_outruns", 1)
+	case "stream-outruns-while-peer-sender-is-jammed":
+		// the last node (enqueued last) does not read: its flow-control window fills and its sender blocks in a write, so the
+		// streaming correctable stays inside its enqueue loop while the first node already streams; the quorum function is done at the first reply
+		last := ph.N - 1
+		cl.Proxies[last].SetMode(h.Stall)
+		for k := 0; k < 12; k++ {
+			tok := h.NewToken()
+			req := &puppet.Req{Call: tok, Seq: tok, Kind: 9, Pad: make([]byte, 48<<10)}
+			go cl.Node(last).Uni(context.Background(), req, gorums.WithNoSendWaiting())
+		}
+		time.Sleep(30 * time.Millisecond)
+		tasks = append(tasks, issue("CorrStream", 0, 1, false, -1, false, 0))
+		time.Sleep(50 * time.Millisecond)
+		// node 0 must be usable while the peer is still jammed
+		tok := h.NewToken()
+		preq := &puppet.Req{Call: tok, Seq: tok, Kind: 99}
+		pctx, pcancel := context.WithTimeout(context.Background(), e.W+3*time.Second)
+		var prep *puppet.Rep
+		var perr error
+		pt := h.Go("probe:while-peer-jammed", func() { prep, perr = cl.Node(0).RPC(pctx, preq) })
+		hi := h.Await(pt, e.W)
+		pcancel()
+		cl.Proxies[last].SetMode(h.Pass)
+		R.Count("directed.stream_outruns_with_jammed_peer", 1)
+		if hi.Verdict == h.Hung || (hi.Verdict == h.Returned && (perr != nil || prep.GetCall() != tok)) {
+			oth := map[string]bool{}
+			for _, o := range hi.Others {
+				oth[o] = true
+			}
+			var ol []string
+			for o := range oth {
+				ol = append(ol, o)
+			}
+			sortStrings(ol)
+			R.Violate(wedgeClass(hi, ol), fmt.Sprintf("healthy node unusable while a finished streaming correctable is still enqueueing to a jammed peer: probe %s %v; parked: %v", hi.Sig, perr, ol),
+				map[string]any{"phase": ph, "probe_stack": hi.Stack, "parked": ol})
+			return "wedge"
+		}
 	case "cancel-while-write-blocked":
 		// handlers hold their connection; large payloads fill the flow-control window so that SendMsg blocks; then cancel
 		hold.Store(true)
